@@ -179,7 +179,7 @@ func runC20(c *Ctx, r *Report) {
 				// edge true must come from the end-marker comparison's true side
 				fromEnd := false
 				for _, cc := range controlling(pred) {
-					if bin, ok := cc.If.Cond.(*ssa.BinOp); ok && bin.Op == token.EQL && cc.Edge == 0 && (isEndMarkerLoad(bin.X) || isEndMarkerLoad(bin.Y)) {
+					if bin, ok := cc.Cond.(*ssa.BinOp); ok && bin.Op == token.EQL && cc.Edge == 0 && (isEndMarkerLoad(bin.X) || isEndMarkerLoad(bin.Y)) {
 						fromEnd = true
 					}
 				}
@@ -324,7 +324,7 @@ func runC20(c *Ctx, r *Report) {
 				if fa, isFa := ld.X.(*ssa.FieldAddr); isFa && fa.Field == validIdx && fa.X == ssa.Value(iv.Params[0]) {
 					// guarded by t != nil
 					for _, cc := range controlling(ld.Block()) {
-						if bin, isBin := cc.If.Cond.(*ssa.BinOp); isBin && bin.Op == token.NEQ && cc.Edge == 0 && (isNilConst(bin.Y) || isNilConst(bin.X)) {
+						if bin, isBin := cc.Cond.(*ssa.BinOp); isBin && bin.Op == token.NEQ && cc.Edge == 0 && (isNilConst(bin.Y) || isNilConst(bin.X)) {
 							okv = true
 						}
 					}
